@@ -57,11 +57,17 @@ fn outcome(chunks: Vec<Chunk>) -> String {
         Some(Err(e)) => match e {
             RE::DeviceIdMismatch { .. } => "err device".to_string(),
             RE::ChannelIdMismatch { .. } => "err chip".to_string(),
-            RE::MissingChunk { position } => format!("err missing {position}"),
+            RE::MissingChunk { position, .. } => format!("err missing {position}"),
             RE::MissingEndOfMessageChunk => "err no-eom".to_string(),
-            RE::MisplacedEndOfMessageChunk { position } => format!("err eom-early {position}"),
+            RE::MisplacedEndOfMessageChunk { position, .. } => format!("err eom-early {position}"),
             RE::PayloadLengthMismatch { .. } => "err length".to_string(),
             RE::BadPayload(inner) => format!("err payload {:?}", inner),
+            // a variant this harness does not know (error variants are not constrained by the property): its name only
+            #[allow(unreachable_patterns)]
+            other => {
+                let d = format!("{other:?}");
+                format!("err {}", d.split(|c: char| !c.is_alphanumeric()).next().unwrap_or(""))
+            }
         },
     }
 }
